@@ -1,55 +1,16 @@
 ----------------------------- MODULE C04 -----------------------------
 (* C04: the compiler terminates with a result or diagnostics on any text.
-   Three uses of the same module (one .cfg each):
-     C04.cfg   tlc -simulate: every behaviour is one random input drawn from the input space of
-               spec/front/Mutants.tla (corpus mutants, token soup, filled skeletons);
-     C04x.cfg  model checking mode, states = inputs: the exhaustive part (all seeds, all corpus programs
-               unmodified, every mutant of every corpus program with at most MAXSOLID solid lexemes,
-               token soup up to length SOUPLEN, skeletons with all holes = the same token);
-     C04v.cfg  validation, states = observations: every recorded observation of the harness is checked
-               against the legal outcomes of spec/front/Pipeline.tla; illegal ones get their finding key.
-   Parameters come through environment variables (CORPUS, MAXSOLID, SOUPLEN, OBS). *)
-EXTENDS Pipeline
-VARIABLE st
+   C04.cfg / C04x.cfg: the random and the exhaustive enumerator of spec/front/FrontGen.tla (inputs);
+   C04v.cfg: validation, states = observations: every observation recorded by the harness (mode "both":
+   abra_core::check and abra_core::compile_bytecode on the input) is checked against the legal outcomes
+   of spec/front/Pipeline.tla; an illegal one is printed with its finding key. *)
+EXTENDS FrontGen
 
-NoD == [op |-> "orig", i |-> 0, a |-> 0]
-St(g, p, d, ix) == [g |-> g, p |-> p, d |-> d, ix |-> ix]
-
-CaseOf(s) == CASE s.g = "seed" -> SeedCase(s.p)
-               [] s.g = "orig" -> OrigCase(s.p)
-               [] s.g = "mut"  -> MutantCase(s.p, s.d)
-               [] s.g = "soup" -> SoupCase(s.ix)
-               [] s.g = "skel" -> SkelCase(s.p, s.ix)
-
-Emit == st.g # "none" => PrintT(<<"CASE", ToJson(CaseOf(st))>>)
-
-(* ---- random ---- *)
-InitR == st = St("none", 0, NoD, <<>>)
-NextR == /\ st.g = "none"
-         /\ st' = LET c == Pick(1..100) IN
-                  IF c <= 78 THEN LET p == Pick(1..NProg) IN St("mut", p, RandomDesc(LexOf(p), SolidOf(p)), <<>>)
-                  ELSE IF c <= 86 THEN St("soup", 0, NoD, RandomIdx(Pick(1..8)))
-                  ELSE LET k == Pick(1..Len(Skeletons)) IN St("skel", k, NoD, RandomIdx(NHoles(Skeletons[k])))
-
-(* ---- exhaustive ---- *)
-MaxSolid == Nat10(IOEnv.MAXSOLID)
-SoupLen == Nat10(IOEnv.SOUPLEN)
-SmallProgs == {p \in 1..NProg : Corpus[p].nsolid <= MaxSolid}
-Tuples(n) == [1..n -> TokIdx]
-InitX == st \in
-   { St("seed", k, NoD, <<>>) : k \in 1..Len(Seeds) } \cup
-   { St("orig", p, NoD, <<>>) : p \in 1..NProg } \cup
-   UNION { { St("mut", p, d, <<>>) : d \in AllDescs(LexOf(p), SolidOf(p)) } : p \in SmallProgs } \cup
-   UNION { { St("soup", 0, NoD, ix) : ix \in Tuples(n) } : n \in 1..SoupLen } \cup
-   { St("skel", k, NoD, [j \in 1..NHoles(Skeletons[k]) |-> a]) : k \in 1..Len(Skeletons), a \in TokIdx }
-NextX == UNCHANGED st
-
-(* ---- validation of observations ---- *)
 Obs == ndJsonDeserialize(IOEnv.OBS)
 InitV == st \in { St("obs", k, NoD, <<>>) : k \in 1..Len(Obs) }
 NextV == UNCHANGED st
 Verdict == st.g = "obs" =>
    LET o == Obs[st.p] IN
    IF LegalC04(o) THEN TRUE
-   ELSE PrintT(<<"CASE", ToJson([id |-> o.id, legal |-> FALSE, key |-> KeyC04(o)])>>)
+   ELSE PrintT(<<"CASE", ToJson([id |-> o.id, legal |-> FALSE, keys |-> <<KeyC04(o)>>, expect |-> ExpectC04])>>)
 =============================================================================
